@@ -134,8 +134,14 @@ def gen_fmt(rng, extreme_ok=True):
         bits = rng.choice(NP_BITS)
     elif r < 0.8:
         bits = rng.choice([53, 54, 55, 63, 65])
-    else:
+    elif r < 0.95:
         bits = rng.randrange(1, 71)
+    elif r < 0.985:
+        # wide formats: the scalar and the deprecated converters accept any width (deprecated: n_int <= 1023)
+        bits = rng.choice([72, 80, 96, 100, 127, 128, 129, 200, 256, 512, 1000, rng.randrange(71, 1023)])
+    else:
+        # around the width where validate_fp_params stops converting (1 << n_int) - 1 to a float
+        bits = rng.choice([1022, 1023, 1024, 1025, 1026, 1100])
     r = rng.random()
     if r < 0.55:
         frac = rng.randrange(0, bits + 1)
